@@ -33,6 +33,34 @@ fn zip_entries(path: &str) -> Result<(Vec<String>, HashMap<String, String>), Str
 
 /// Read an archive back the documented way: graph rebuilt from the archived model with `k`
 /// spare variable sets, sets loaded with `load_bdd_bundle`.
+/// The archive written by the library's own driver `analysis::analyse_formulae` (plain formulae, no printing): read back
+/// the documented way, next to the result of every line computed through the model-checking API on its own.
+fn arch_via_analyse(job: &Value, dir: &str) -> Result<Map<String, Value>, String> {
+    use biodivine_hctl_model_checker::analysis::analyse_formulae;
+    use biodivine_hctl_model_checker::model_checking::model_check_formula_dirty;
+    use biodivine_hctl_model_checker::result_print::PrintOptions;
+    let mut m = Map::new();
+    let id = job["id"].as_str().unwrap_or("x");
+    let bn = load_network(job["model"].as_str().unwrap_or(""), job["format"].as_str().unwrap_or("aeon"))?;
+    let k = job["k"].as_u64().unwrap_or(0) as u16;
+    let formulae: Vec<String> = job["formulae"].as_array().map(|a| a.iter().map(|x| x.as_str().unwrap_or("").to_string()).collect()).unwrap_or_default();
+    let path = format!("{dir}/{id}.zip");
+    analyse_formulae(&bn, formulae.clone(), PrintOptions::NoPrint, Some(path.clone()), None)?;
+    m.insert("archive".into(), json!(path));
+    m.insert("net_in".into(), describe_network(&bn));
+    let back = read_archive(&path, k)?;
+    m.insert("back".into(), back);
+    // every line on its own, through the API, on a graph with the same number of spare variable sets
+    let g = get_extended_symbolic_graph(&bn, k)?;
+    let mut lines = Vec::new();
+    for f in &formulae {
+        let r = model_check_formula_dirty(f, &g)?;
+        lines.push(json!(explicit_of(&r, g.symbolic_context(), &bn).tuples));
+    }
+    m.insert("lines_lib".into(), json!(lines));
+    Ok(m)
+}
+
 pub fn read_archive(path: &str, k: u16) -> Result<Value, String> {
     let (names, texts) = zip_entries(path)?;
     let model = texts.get("model.aeon").cloned().ok_or("archive without model.aeon")?;
@@ -68,6 +96,9 @@ pub fn arch(job_path: &str, out_path: &str, dir: &str) -> Result<(), String> {
         let r = catch_unwind(AssertUnwindSafe(|| -> Result<Map<String, Value>, String> {
             if job["big"].as_bool().unwrap_or(false) {
                 return arch_big(job, dir);
+            }
+            if job["via_analyse"].as_bool().unwrap_or(false) {
+                return arch_via_analyse(job, dir);
             }
             let mut m = Map::new();
             let bn = load_network(job["model"].as_str().unwrap_or(""), job["format"].as_str().unwrap_or("aeon"))?;
